@@ -3,5 +3,6 @@ package main
 // one import per property package; each registers itself in init().
 import (
 	_ "verif/c08"
+	_ "verif/c14"
 	_ "verif/c15"
 )
